@@ -155,6 +155,12 @@ def siblingsOf (p : Proc) (t : Task) : List Task :=
   | some pt => (childrenOf p pt.tid).filter (·.tid != t.tid)
   | none => []
 
+/-- `has_open_act` of `step.rs`: an open, non-hook task whose parent (by the level walk) is this task -/
+def hasOpenAct (p : Proc) (tid : Nat) : Bool :=
+  p.tasks.any fun t => !t.state.isCompleted &&
+    !(match t.data.lookup Consts.IS_EVENT_PROCESSED with | some (.bool b) => b | _ => false) &&
+    (parentOfTask p t).map (·.tid) == some tid
+
 /-- ancestors nearest first -/
 def ancestorsOf (p : Proc) (t : Task) : List Task :=
   let rec go (fuel : Nat) (t : Task) : List Task :=
@@ -605,7 +611,7 @@ partial def nextStep (tid : Nat) (n : Node) : M Bool := do
           isNext := true
       let kt ← getTask k.tid
       if kt.state.isCompleted then count := count + 1
-    if count == kids.length then
+    if count == kids.length && !hasOpenAct (← get).p tid then
       let t ← getTask tid
       if !t.state.isCompleted then setState tid .completed
       match n.next with
@@ -696,7 +702,7 @@ partial def reviewStep (tid : Nat) (n : Node) : M Bool := do
           return false
       let kt ← getTask k.tid
       if kt.state.isCompleted then count := count + 1
-    if count == kids.length then
+    if count == kids.length && !hasOpenAct (← get).p tid then
       let t ← getTask tid
       if !t.state.isCompleted then setState tid .completed
       match n.next with
@@ -745,6 +751,15 @@ def abortTask (tid : Nat) : M Unit := do
   setState tid .aborted
   setData tid (← get).vars
   emitTask tid
+  -- close the open tasks of the other branches before the ancestors report the end
+  let w ← get
+  let t ← getTask tid
+  let anc := (ancestorsOf w.p t).map (·.tid)
+  for o in w.p.tasks do
+    let ot ← getTask o.tid
+    if ot.tid == tid || anc.contains ot.tid || ot.state.isCompleted then continue
+    if ot.state.isPending || ot.state.isNone then setState ot.tid .skipped else setState ot.tid .aborted
+    emitTask ot.tid
   let w ← get
   let t ← getTask tid
   for a in ancestorsOf w.p t do
